@@ -22,9 +22,10 @@ def U(n):
     return PType(f"U{n}_T", "Integer", IntEnc(n))
 
 
-def layouts():
+def layouts(tier="quick"):
     """-> list of (name, ptypes, params, entries, prefix(LEN)->bits, uses_len)."""
     out = []
+    deep = tier == "thorough"
 
     def add(name, fields, prefix=None, uses_len=False):
         pts, prs, ents = [], [], []
@@ -61,11 +62,29 @@ def layouts():
         prefix=lambda ln: format(ln, "08b"), uses_len=True)
     add("LEN,BITS(LEN bits),u3", [("LEN", U(8)), ("BITS", PType("BB_T", "Binary", BinEnc(Dyn("LEN", False)))), ("P3", U(3))],
         prefix=lambda ln: format(ln, "08b"), uses_len=True)
+    if deep:
+        # the same ideas at other alignments and with other field kinds after the computed-length field
+        for pad in (1, 4, 7):
+            add(f"u{pad},LEN,BLOB(8LEN),u{8 - pad}", [("PA", U(pad)), ("LEN", U(8)), ("BLOB", PType("BL0_T", "Binary", BinEnc(Dyn("LEN", False, 8, 0)))), ("PB", U(8 - pad))],
+                prefix=lambda ln, pad=pad: "1" * pad + format(ln, "08b"), uses_len=True)
+            add(f"u{pad},LEN,STR(8LEN),u{8 - pad}", [("PA", U(pad)), ("LEN", U(8)), ("STR", PType("SD_T", "String", StrEnc(Dyn("LEN", True, 8, 0), "ISO-8859-1"))), ("PB", U(8 - pad))],
+                prefix=lambda ln, pad=pad: "0" * pad + format(ln, "08b"), uses_len=True)
+        for c in (24, 32):
+            add(f"REST(8PKT_LEN-{c}),TAIL32", [("REST", PType(f"RS{c}_T", "Binary", BinEnc(Dyn("PKT_LEN", True, 8, -c)))), ("TAIL", U(32))])
+        add("LEN,STR(8LEN)term,u8", [("LEN", U(8)), ("STR", PType("ST_T", "String", StrEnc(Dyn("LEN", True, 8, 0), "US-ASCII", None, "00"))), ("Z", U(8))],
+            prefix=lambda ln: format(ln, "08b"), uses_len=True)
+        add("LEN,STR(8LEN+8)lead8,s16", [("LEN", U(8)), ("STR", PType("SL_T", "String", StrEnc(Dyn("LEN", True, 8, 8), "US-ASCII", None, None, 8))),
+                                         ("Z", PType("S16S_T", "Integer", IntEnc(16, "signed")))], prefix=lambda ln: format(ln, "08b") + format(8 * ln, "08b"), uses_len=True)
+        add("LEN,BLOB(8LEN),f64", [("LEN", U(8)), ("BLOB", PType("BL0_T", "Binary", BinEnc(Dyn("LEN", False, 8, 0)))), ("D", PType("F64_T", "Float", FloatEnc(64)))],
+            prefix=lambda ln: format(ln, "08b"), uses_len=True)
+        add("LEN,BLOB(8LEN),m1750", [("LEN", U(8)), ("BLOB", PType("BL0_T", "Binary", BinEnc(Dyn("LEN", False, 8, 0)))), ("M", PType("M17_T", "Float", FloatEnc(32, "MILSTD_1750A")))],
+            prefix=lambda ln: format(ln, "08b"), uses_len=True)
+        add("u12,s20,f16", [("A", U(12)), ("B", PType("S20_T", "Integer", IntEnc(20, "twosComplement"))), ("C", PType("F16_T", "Float", FloatEnc(16)))])
     return out
 
 
-def build_doc(via):
-    ls = layouts()
+def build_doc(via, tier="quick"):
+    ls = layouts(tier)
     doc = docs.selector_doc([(pts, prs, ents) for _, pts, prs, ents, _, _ in ls], root_abstract=True)
     return doc, (load_doc(doc) if via == "xml" else build_objects(doc))
 
@@ -91,14 +110,15 @@ def _task(task):
     via = task["via"]
     try:
         with case_alarm(120):
-            doc, defn = build_doc(via)
+            doc, defn = build_doc(via, task.get("tier", "quick"))
     except BaseException as e:  # noqa: BLE001
         t.violation({"kind": "load-failed", "exc": type(e).__name__}, {"via": via}, observed=str(e)[:300])
         return t
-    ls = layouts()
+    ls = layouts(task.get("tier", "quick"))
+    deep = task.get("tier") == "thorough"
     for i in task["layouts"]:
         name, pts, prs, ents, prefix, uses_len = ls[i]
-        lens = range(6) if uses_len else (0,)
+        lens = range(10 if deep else 6) if uses_len else (0,)
         with case_alarm(600):
             for ln in lens:
                 pre = prefix(ln)
@@ -106,9 +126,9 @@ def _task(task):
                 probe = docs.packet_for(i, (pre + "0" * 400)[:400])
                 o = decode_packet(doc, probe)
                 req_bits = o.consumed - 48 if o.kind == "parsed" else 64
-                max_n = max(1, (req_bits + 7) // 8) + 3
+                max_n = max(1, (req_bits + 7) // 8) + (6 if deep else 3)
                 for n in range(1, min(max_n, 40) + 1):
-                    for fill in ("00000000", "11111111", "01000001"):
+                    for fill in (("00000000", "11111111", "01000001", "00100001") if deep else ("00000000", "11111111", "01000001")):
                         bits = (pre + fill * n)[:8 * n]
                         if len(bits) < 8 * n:
                             bits = bits + "0" * (8 * n - len(bits))
@@ -143,7 +163,7 @@ def _task(task):
                                 t.violation({"kind": "accounting", "class": klass.split(":")[0], "observed": obs[0], "parse_bad_pkts": pb,
                                              "layout": name if not is_clean else "*"},
                                             {"layout": i, "layout_name": name, "LEN": ln, "n": n, "packet": pkt.hex(), "parse_bad_pkts": pb,
-                                             "via": via}, expected=klass, observed=obs[:3] if obs[0] != "clean" else obs[0], note=why)
+                                             "via": via, "tier": task.get("tier", "quick")}, expected=klass, observed=obs[:3] if obs[0] != "clean" else obs[0], note=why)
                 t.nontrivial += 1
         t.programs += 1
     if 0 in task["layouts"]:
@@ -152,15 +172,15 @@ def _task(task):
 
 
 def run(ctx):
-    n = len(layouts())
-    tasks = [{"layouts": [i], "via": "xml"} for i in range(n)] + [{"layouts": list(range(n)), "via": "objects"}]
+    n = len(layouts(ctx.tier))
+    tasks = [{"layouts": [i], "via": "xml", "tier": ctx.tier} for i in range(n)] + [{"layouts": list(range(n)), "via": "objects", "tier": ctx.tier}]
     tally = fan_out(_task, tasks, jobs=ctx.jobs, seed=ctx.seed)
     coverage = {
         "programs": tally.programs,
         "exhaustive": True,
-        "bound": (f"{n} layouts (fixed: u8,u16 / u3,u13 / f32 / str16 / bin12,u4 / s64 / u16le,u8; length dependent: LEN+BLOB 8*LEN+{{0,8,-8}}, "
+        "bound": (f"{n} layouts ({'with the thorough-only alignment/field-kind variants; ' if not ctx.quick else ''}fixed: u8,u16 / u3,u13 / f32 / str16 / bin12,u4 / s64 / u16le,u8; length dependent: LEN+BLOB 8*LEN+{{0,8,-8}}, "
                   "rest-of-packet 8*PKT_LEN-{8,16,64}+TAIL, dynamic string, unaligned variants, float after dynamic blob, calibrated length, bit-granular length) "
-                  "x LEN 0..5 x every data length 1..required+3 bytes x fills {00,FF,41} x parse_bad_pkts {T,F}, from XML and from objects"),
+                  f"x LEN 0..{5 if ctx.quick else 9} x every data length 1..required+{3 if ctx.quick else 6} bytes x {3 if ctx.quick else 4} fills x parse_bad_pkts {{T,F}}, from XML and from objects"),
         "rule": "one evaluation = one single-packet generator run; distinct non-trivial = distinct (layout, LEN) pairs swept over all lengths",
     }
     return {"level": LEVEL, "tally": tally, "coverage": coverage,
@@ -169,9 +189,7 @@ def run(ctx):
 
 
 def replay(case):
-    doc, defn = build_doc(case.get("via", "xml"))
-    pkt = bytes.fromhex(case["packet"])
-    t = _task({"layouts": [case["layout"]], "via": case.get("via", "xml")})
+    t = _task({"layouts": [case["layout"]], "via": case.get("via", "xml"), "tier": case.get("tier", "quick")})
     for v in t.violations:
         if v["case"]["packet"] == case["packet"] and v["case"]["parse_bad_pkts"] == case["parse_bad_pkts"]:
             return v
@@ -180,7 +198,7 @@ def replay(case):
 
 def repro_py(case):
     from mc.spec import render_xml
-    doc = docs.selector_doc([(pts, prs, ents) for _, pts, prs, ents, _, _ in layouts()], root_abstract=True)
+    doc = docs.selector_doc([(pts, prs, ents) for _, pts, prs, ents, _, _ in layouts(case.get("tier", "quick"))], root_abstract=True)
     return ("import io, warnings\nfrom space_packet_parser.xtce.definitions import XtcePacketDefinition\n"
             f"xml = {render_xml(doc)!r}\n"
             f"d = XtcePacketDefinition.from_xtce(io.BytesIO(xml))\nwith warnings.catch_warnings(record=True) as w:\n"
